@@ -246,6 +246,31 @@ def m_slice(v: MVal, start, stop) -> MVal:
                     sql_state=None, pending_sort=False, hist=hist)
 
 
+def m_custom(v: MVal, op) -> MVal:
+    """User-defined unary operations (iteration engines only): see world.SimAtLeast / SimStride / SimOrderBy."""
+    k = op["op"]
+    hist = ("custom:" + k, v.hist, op.get("n"), op.get("col"), op.get("desc"))
+    if k == "orderby":
+        r = m_sort(v, [[["ref", op["col"]], not op.get("desc")]])
+        return r.derive(hist=hist)
+    n = op["n"]
+    if k == "atleast":
+        if v.count_det:
+            if len(v.rows) >= n:
+                return v.derive(hist=hist)
+            return v.derive(rows=[], upper=None, bag_det=True, hist=hist)
+        return v.derive(rows=(v.rows if len(v.rows) >= n else []), upper=v.up(), bag_det=False, count_det=False, hist=hist)
+    if k == "stride":
+        if n == 1:
+            return v.derive(hist=hist)
+        if v.order_det and v.bag_det:
+            return v.derive(rows=v.rows[::n], hist=hist)
+        if v.bag_det and len(v.rows) <= 1:
+            return v.derive(hist=hist)
+        return v.derive(rows=v.rows[::n], upper=v.up(), bag_det=False, count_det=v.count_det, hist=hist)
+    raise ValueError(op)
+
+
 def m_chain(l: MVal, r: MVal) -> MVal:
     bd = l.bag_det and r.bag_det
     return _fix(MVal(
